@@ -47,6 +47,17 @@ def build(c):
     nets = [list(e["m"]) + ([e["w"]] if e["w"] is not None else []) for e in c["nets"]]
     nl = Netlist({"Modules": mods, "Nets": nets})
     die = Die("%sx%s" % (X.dec(c["W"] * u), X.dec(c["H"] * u)), nl)
+    if c.get("squares") and not any(m["kind"] == "terminal" for m in c["modules"]):
+        nl.create_squares()  # every soft module gets its default square before the relocation (the square shares the centre object)
+    if c.get("share_points"):
+        seen = {}
+        for m in nl.modules:
+            if not m.is_fixed and not m.rectangles and m.center is not None:
+                k = (m.center.x, m.center.y)
+                if k in seen:
+                    m.center = seen[k]  # coincident centres given as ONE Point object
+                else:
+                    seen[k] = m.center
     return die
 
 
@@ -111,6 +122,10 @@ def run_layout(c):
         cls.append("terminal")
     if it == 0:
         cls.append("zero-iterations")
+    if c.get("squares") and "terminal" not in kinds:
+        cls.append("squares-created-before")
+    if c.get("share_points"):
+        cls.append("shared-point-objects")
     return dict(nt=kinds.count("fixed") >= 1 and len(kinds) - kinds.count("fixed") >= 2 and len(c["nets"]) >= 1, cls=cls)
 
 
@@ -211,7 +226,7 @@ def design_s(draw, bestof=False):
     for _ in range(draw(_i(0, 5))):
         ar = draw(st.sampled_from([2, 2, 3, 4, 5]))
         nets.append(dict(m=[names[draw(_i(0, len(names) - 1))] for _ in range(ar)], w=draw(st.sampled_from([None, None, 1, 2, 0.5, 10, 3.5]))))
-    c = dict(unit=unit, W=W, H=H, modules=list(mods), nets=nets)
+    c = dict(unit=unit, W=W, H=H, modules=list(mods), nets=nets, squares=draw(_i(0, 2)) == 0, share_points=draw(_i(0, 2)) == 0)
     if bestof:
         c["max_iter"] = draw(_i(1, 8))
     else:
@@ -223,7 +238,8 @@ def design_s(draw, bestof=False):
 def subchecks():
     return [
         Sub("layout", run_layout, strategy=design_s(False), n_quick=6000, n_thorough=60000,
-            required=("something-moved", "coincident-centres", "centre-on-border", "terminal", "zero-iterations")),
+            required=("something-moved", "coincident-centres", "centre-on-border", "terminal", "zero-iterations", "squares-created-before",
+                      "shared-point-objects")),
         Sub("bestof", run_bestof, strategy=design_s(True), n_quick=800, n_thorough=8000, shrink_quick=False,
             required=("bestof-spread",)),
     ]
